@@ -400,6 +400,23 @@ def leg_geometry(ctx, P, spec):
             ctx.disagree("geometry", case, {what: mm}, {what: ii}, what)
 
     P.add("c12.geometry", {"grid": mgrid(spec), "pi": q(PI)}, cont)
+    if spec["cls"] == "cartesian":
+        # Cuboid.from_bounds on the raw constructor arguments (reversed bounds are flipped)
+        corners = [[float(x) for x in g.cuboid.corners[0]], [float(x) for x in g.cuboid.corners[1]]]
+
+        def cont2(resp):
+            m = expect_ok(ctx, resp, "geometry", case)
+            if m is None:
+                return
+            ctx.impl_traces += 1
+            mv = [unq(x) for bb in m for x in bb]
+            iv = [x for ax in range(len(spec["shape"])) for x in (corners[0][ax], corners[1][ax])]
+            iv2 = [x for bb in impl["bounds"] for x in bb]
+            if not same_list(mv, iv, cs, exact) or not same_list(mv, iv2, cs, exact):
+                ctx.disagree("geometry", case, {"cuboid": [float(x) for x in mv]}, {"corners": iv, "axes_bounds": iv2},
+                             "Cuboid.from_bounds")
+
+        P.add("c12.cuboid", {"lo": [q(bb[0]) for bb in spec["bounds"]], "hi": [q(bb[1]) for bb in spec["bounds"]]}, cont2)
 
 
 def axis_measure_outer(spec, ax):
@@ -463,9 +480,18 @@ def leg_integrate(ctx, P, spec, rng):
         try:
             res = np.asarray(g.integrate(data, axes=axes_arg), dtype=float)
             one = np.asarray(g.integrate(1, axes=axes_arg), dtype=float)
+            # data with a leading component axis (vector field): every component separately
+            vec = np.stack([data, 2 * data[::-1] + 1])
+            resv = np.asarray(g.integrate(vec, axes=axes_arg), dtype=float)
+            res1 = np.asarray(g.integrate(vec[1], axes=axes_arg), dtype=float)
         except Exception as e:  # noqa: BLE001
             ctx.disagree("integrate", case, "value", f"{type(e).__name__}: {e}", "real code raised")
             continue
+        tolv = 1e-11 * (1 + float(np.max(np.abs(resv)))) if resv.size else 0.0
+        if resv.shape != (2,) + res.shape or np.max(np.abs(resv[0] - res), initial=0.0) > tolv \
+                or np.max(np.abs(resv[1] - res1), initial=0.0) > tolv:
+            ctx.disagree("integrate", case, "componentwise", {"vector": resv.tolist(), "components": [res.tolist(), res1.tolist()]},
+                         "integrate of data with a leading component axis")
         # monitor: integrating 1 over the selected axes gives the product of their measures
         ctx.monitor_evals += 1
         meas = float(np.prod([axis_measure(spec, ax) for ax in sub])) if sub else 1.0
@@ -1004,11 +1030,15 @@ def leg_distance(ctx, P, spec, rng, force=None):
     b = spec_bounds(spec)
     lo = np.array([float(x[0]) for x in b])
     dxs = np.array([float(x[1] - x[0]) / n for x, n in zip(b, spec["shape"])])
-    m = rng.choice([1, 2, 4, 6])
+    jobs = []
     if force is not None:
-        g1, g2 = np.array(force[0], dtype=float), np.array(force[1], dtype=float)
-        m = len(g1)
+        # a given case (regression stream, replay): (coords, p1, p2, int_points)
+        coords, a1, a2, int_pts = force
+        if not int_pts:
+            a1, a2 = np.array(a1, dtype=float), np.array(a2, dtype=float)
+        jobs.append((coords, a1, a2, int_pts, "forced", exact and (coords != "cell" or exact_grid(spec))))
     else:
+        m = rng.choice([1, 2, 4, 6])
         g1, _ = gen_points(rng, spec, m)
         g2, _ = gen_points(rng, spec, m)
         # ties: second point exactly half a period away along a periodic axis
@@ -1017,31 +1047,33 @@ def leg_distance(ctx, P, spec, rng, force=None):
                 for ax in range(k):
                     if spec["periodic"][ax]:
                         g2[i, ax] = g1[i, ax] + rng.choice([0.5, -0.5, 1.5, 1.0, -2.5]) * float(b[ax][1] - b[ax][0])
-    if sym:
-        g1[:, 0], g2[:, 0] = np.abs(g1[:, 0]), np.abs(g2[:, 0])
-    for coords in (["grid", "cell", "cartesian"] if force is None else ["grid"]):
-        if coords == "grid":
-            p1, p2 = g1, g2
-        elif coords == "cell":
-            p1, p2 = (g1 - lo) / dxs, (g2 - lo) / dxs
-            if exact and exact_grid(spec):
-                p1, p2 = np.round(p1 * 64) / 64, np.round(p2 * 64) / 64
-        else:
-            p1, p2 = rotate_cart(rng, spec, to_cart_py(spec, g1)), rotate_cart(rng, spec, to_cart_py(spec, g2))
-        ex = exact and (coords != "cell" or exact_grid(spec))
-        int_pts = False
-        if not sym and coords != "cell" and force is None and rng.random() < 0.12:
-            # integer-typed points (python ints / int arrays are legitimate point coordinates)
-            p1, p2 = np.round(p1).astype(int), np.round(p2).astype(int)
-            int_pts = True
-        shp = "batch"
-        a1, a2 = p1.copy(), p2.copy()
-        if rng.random() < 0.3:
-            a1, a2, shp = p1[0].copy(), p2[0].copy(), "single"
-        elif m >= 4 and rng.random() < 0.3:
-            a1, a2, shp = p1.reshape(2, m // 2, -1).copy(), p2.reshape(2, m // 2, -1).copy(), "batch-2d"
-        if int_pts and rng.random() < 0.5:
-            a1, a2 = a1.tolist(), a2.tolist()
+        if sym:
+            g1[:, 0], g2[:, 0] = np.abs(g1[:, 0]), np.abs(g2[:, 0])
+        for coords in ["grid", "cell", "cartesian"]:
+            if coords == "grid":
+                p1, p2 = g1, g2
+            elif coords == "cell":
+                p1, p2 = (g1 - lo) / dxs, (g2 - lo) / dxs
+                if exact and exact_grid(spec):
+                    p1, p2 = np.round(p1 * 64) / 64, np.round(p2 * 64) / 64
+            else:
+                p1, p2 = rotate_cart(rng, spec, to_cart_py(spec, g1)), rotate_cart(rng, spec, to_cart_py(spec, g2))
+            ex = exact and (coords != "cell" or exact_grid(spec))
+            int_pts = False
+            if not sym and coords != "cell" and rng.random() < 0.12:
+                # integer-typed points (python ints / int arrays are legitimate point coordinates)
+                p1, p2 = np.round(p1).astype(int), np.round(p2).astype(int)
+                int_pts = True
+            shp = "batch"
+            a1, a2 = p1.copy(), p2.copy()
+            if rng.random() < 0.3:
+                a1, a2, shp = p1[0].copy(), p2[0].copy(), "single"
+            elif m >= 4 and rng.random() < 0.3:
+                a1, a2, shp = p1.reshape(2, m // 2, -1).copy(), p2.reshape(2, m // 2, -1).copy(), "batch-2d"
+            if int_pts and rng.random() < 0.5:
+                a1, a2 = a1.tolist(), a2.tolist()
+            jobs.append((coords, a1, a2, int_pts, shp, ex))
+    for coords, a1, a2, int_pts, shp, ex in jobs:
         kin = np.shape(a1)[-1]
         f1, f2 = flat_pts(a1, kin), flat_pts(a2, kin)
         case = {"leg": "distance", "grid": spec, "coords": coords, "p1": np.asarray(a1).tolist(),
@@ -1112,6 +1144,25 @@ def leg_distance(ctx, P, spec, rng, force=None):
                         bad = f"not invariant under a period shift of p2 by {shift.tolist()}: {fdist.tolist()} vs {dsh.tolist()}"
                 except Exception as e:  # noqa: BLE001
                     bad = f"distance of shifted point raised {type(e).__name__}: {e}"
+        # the package's own period images: every mirror point along a periodic axis is at distance 0
+        if bad is None and not int_pts:
+            n_expected = int(np.prod([3 if P_ is not None else 1 for P_ in periods])) - 1
+            for row in x1[:2]:
+                try:
+                    mps = [np.array(mp, dtype=float) for mp in g.iter_mirror_points(row.copy(), with_self=False, only_periodic=True)]
+                    dms = [float(g.distance(row.copy(), mp, coords="cartesian")) for mp in mps]
+                except Exception as e:  # noqa: BLE001
+                    mps, dms = [], []
+                    bad = f"iter_mirror_points raised {type(e).__name__}: {e}"
+                ctx.hist("mirror-points", len(mps))
+                psc = max(big, max((P_ for P_ in periods if P_ is not None), default=0.0))
+                if bad is None and (len(mps) != n_expected or any(dm > 1e-9 * psc for dm in dms)):
+                    bad = (f"mirror points of {row.tolist()} along the periodic axes: {[m.tolist() for m in mps]} at distances {dms} "
+                           f"(expected {n_expected} points at distance 0)")
+                if bad is not None:
+                    key = {"call_site": f"{type(g).__name__}.iter_mirror_points",
+                           "symptom": "mirror-point-shifts-x-instead-of-z" if spec["cls"] == "cylindrical" else "mirror-point-not-a-period-image"}
+                    break
         if bad:
             if int_pts:
                 key = dict(FINDING_INT)
@@ -1323,30 +1374,41 @@ def leg_coordmaps(ctx, P, rng, n):
 
 # ------------------------------------------------------------------------------------------
 REGRESSION_GRIDS = [
-    # F3: cylindrical grid periodic in z, two points across the z seam
+    # (grid, coords, p1, p2, integer-typed points)
+    # F3 (fixed 4d67e68): cylindrical grid periodic in z, two points across the z seam
     ({"cls": "cylindrical", "radius": [1.0, 3.0], "bounds_z": [0.0, 10.0], "shape": [4, 5],
-      "periodic": [False, True], "mode": "dyadic"}, ([[2.0, 0.5]], [[2.0, 9.5]])),
+      "periodic": [False, True], "mode": "dyadic"}, "grid", [[2.0, 0.5]], [[2.0, 9.5]], False),
     ({"cls": "cylindrical", "radius": 2.0, "bounds_z": [-1.0, 3.0], "shape": [2, 4],
-      "periodic": [False, True], "mode": "dyadic"}, ([[1.0, -0.75], [0.5, 2.75]], [[1.5, 2.75], [0.5, -0.5]])),
+      "periodic": [False, True], "mode": "dyadic"}, "grid", [[1.0, -0.75], [0.5, 2.75]], [[1.5, 2.75], [0.5, -0.5]], False),
+    ({"cls": "cylindrical", "radius": 2.0, "bounds_z": [-1.0, 3.0], "shape": [2, 4],
+      "periodic": [False, True], "mode": "dyadic"}, "cartesian", [[0.6, 0.8, -0.75]], [[-0.8, 0.6, 2.75]], False),
     # different periods on a 2-d grid, points across both seams
     ({"cls": "cartesian", "bounds": [[0.0, 2.0], [0.0, 16.0]], "shape": [2, 4], "periodic": [True, True],
-      "mode": "dyadic"}, ([[0.25, 1.0], [1.75, 15.0]], [[1.75, 15.0], [0.25, 9.0]])),
+      "mode": "dyadic"}, "grid", [[0.25, 1.0], [1.75, 15.0]], [[1.75, 15.0], [0.25, 9.0]], False),
     ({"cls": "cartesian", "bounds": [[-1.0, 3.0], [0.0, 1.0], [2.0, 10.0]], "shape": [2, 1, 4],
-      "periodic": [False, True, True], "mode": "dyadic"}, ([[-0.5, 0.125, 2.5]], [[2.5, 0.875, 9.5]])),
+      "periodic": [False, True, True], "mode": "dyadic"}, "grid", [[-0.5, 0.125, 2.5]], [[2.5, 0.875, 9.5]], False),
+    # integer-typed points on a periodic axis with a non-integer period (fixed 16b723b)
+    ({"cls": "cartesian", "bounds": [[0.0, 2.5]], "shape": [5], "periodic": [True], "mode": "dyadic"},
+     "grid", [0], [2], True),
+    ({"cls": "cartesian", "bounds": [[0.0, 2.5], [0.0, 3.0]], "shape": [5, 3], "periodic": [True, False],
+      "mode": "dyadic"}, "cartesian", [[0, 1], [2, 0]], [[2, 2], [0, 3]], True),
+    # the half-period tie in both directions
+    ({"cls": "unit", "shape": [4, 2], "periodic": [True, True], "mode": "dyadic"}, "grid",
+     [[0.5, 0.5], [2.5, 1.5]], [[2.5, 1.5], [0.5, 0.5]], False),
 ]
 
 
 def run(ctx):
     rng = ctx.rng
     P = Pending(ctx)
-    n_grids = ctx.budget(140, 2500)
+    n_grids = ctx.budget(700, 16000)
     # fixed regression cases (always run, all legs)
-    for spec, pts in REGRESSION_GRIDS:
+    for spec, rc, rp1, rp2, rint in REGRESSION_GRIDS:
         ctx.hist("stream", "regression")
         if not _guard(ctx, "construct", spec, lambda: build(spec)):
             continue
         _guard(ctx, "geometry", spec, lambda: leg_geometry(ctx, P, spec))
-        _guard(ctx, "distance", spec, lambda: leg_distance(ctx, P, spec, rng, force=pts))
+        _guard(ctx, "distance", spec, lambda: leg_distance(ctx, P, spec, rng, force=(rc, rp1, rp2, rint)))
         _guard(ctx, "distance", spec, lambda: leg_distance(ctx, P, spec, rng))
     # every class with 1 cell per axis
     for cls in ["unit", "cartesian", "polar", "spherical", "cylindrical"]:
@@ -1361,7 +1423,7 @@ def run(ctx):
         ctx.hist("grid-class", f"{cls}/{len(spec['shape'])}axes/{mode}")
         ctx.hist("cells", "x".join(str(n) for n in spec["shape"]))
         all_legs(ctx, P, spec, rng, full=(i % 3 != 0))
-    _guard(ctx, "coordmaps", None, lambda: leg_coordmaps(ctx, P, rng, ctx.budget(150, 3000)))
+    _guard(ctx, "coordmaps", None, lambda: leg_coordmaps(ctx, P, rng, ctx.budget(400, 6000)))
     _guard(ctx, "malformed", None, lambda: leg_malformed(ctx, rng))
     P.run()
 
@@ -1463,32 +1525,13 @@ def replay(ctx, rep):
         leg_geometry(sub, P, spec)
     elif leg == "distance":
         g = build(spec)
-        coords = c["coords"]
         p1, p2 = c["p1"], c["p2"]
         if not c.get("int_points"):
             p1, p2 = np.array(p1, dtype=float), np.array(p2, dtype=float)
-        d12 = np.ravel(g.distance(_cp(p1), _cp(p2), coords=coords))
-        d21 = np.ravel(g.distance(_cp(p2), _cp(p1), coords=coords))
-        dv = np.array(g.difference_vector(_cp(p1), _cp(p2), coords=coords), dtype=float)
-        print("difference_vector:", dv.tolist(), "distance:", d12.tolist(), "reverse:", d21.tolist())
-        # direct statement: minimum-image distance
-        k = np.shape(p1)[-1]
-        f1, f2 = flat_pts(p1, k), flat_pts(p2, k)
-        b = spec_bounds(spec)
-        lo = np.array([float(x[0]) for x in b])
-        dxs = np.array([float(x[1] - x[0]) / n for x, n in zip(b, spec["shape"])])
-        if coords == "cell":
-            f1, f2 = lo + f1 * dxs, lo + f2 * dxs
-        x1, x2 = (f1, f2) if coords == "cartesian" else (to_cart_py(spec, f1), to_cart_py(spec, f2))
-        raw = x2 - x1
-        for j, P_ in enumerate(cart_periods(spec)):
-            if P_ is not None:
-                raw[:, j] = (raw[:, j] + P_ / 2) % P_ - P_ / 2
-        exp = np.sqrt(np.sum(raw ** 2, axis=-1))
-        print("minimum-image distance:", exp.tolist())
-        ok = bool(np.allclose(d12, exp, rtol=1e-9, atol=1e-12) and np.allclose(d12, d21, rtol=1e-9, atol=1e-12))
-        print("monitor:", "holds" if ok else "FAILS")
-        return ok
+        print("difference_vector:", np.asarray(g.difference_vector(_cp(p1), _cp(p2), coords=c["coords"])).tolist())
+        print("distance:", np.asarray(g.distance(_cp(p1), _cp(p2), coords=c["coords"])).tolist(),
+              "reverse:", np.asarray(g.distance(_cp(p2), _cp(p1), coords=c["coords"])).tolist())
+        leg_distance(sub, P, spec, ctx.sub_rng("replay"), force=(c["coords"], c["p1"], c["p2"], bool(c.get("int_points"))))
     elif leg in ("integrate", "project", "transform", "contains", "normalize", "random"):
         rng = ctx.sub_rng("replay")
         for _ in range(20):
